@@ -39,9 +39,11 @@ func c01Points() []PointSpec {
 		{Meas: "m", Tags: map[string]string{"t1": "tv", "t2": "second tag", "t3": ""}, Fields: map[string]any{"message": "hello 123", "fi": int64(7), "ff": 1.5, "fs": "str", "fb": true, "fx": "caf\xe9",
 			// values of Go types a host may hand over: typed and untyped collections, small numeric types
 			"fsl": []string{"a", "b"}, "fms": map[string]string{"k": "v"}, "fby": []byte("ab"), "far": [2]int{1, 2}, "fl": []any{int64(1), "a"}, "fm": map[string]any{"k": int64(1)},
-			"fu8": uint8(200), "ff32": float32(1.5), "fi32": int32(-5), "fu64": uint64(1 << 63)}},
+			"fu8": uint8(200), "ff32": float32(1.5), "fi32": int32(-5), "fu64": uint64(1 << 63),
+			// keys that builtins use as side channels, holding something else already
+			"pl_msg": int64(5), "time": "not a time"}},
 		{Meas: "", Tags: map[string]string{"t1": ""}, Fields: map[string]any{"fn": nil, "fi": int64(-1), "ff": 0.0, "fs": "", "fb": false, "fj": "[1,2]", "message": "<a><b>1</b></a>", "fx": "\xe6\x97"}},
-		{Meas: "m", Tags: map[string]string{"m": "tagm"}, Fields: map[string]any{"message": nil, "fi": nil, "fs": nil, "s": "field-s", "l": "x", "ff": math.Inf(1)}},
+		{Meas: "m", Tags: map[string]string{"m": "tagm"}, Fields: map[string]any{"message": nil, "fi": nil, "fs": nil, "s": "field-s", "l": "x", "ff": math.Inf(1), "pl_msg": true}},
 	}
 }
 
@@ -260,6 +262,9 @@ func c01ArgAlphabet() []nodeFn {
 	add(func() *rt.Node { return rt.Nil() })
 	add(func() *rt.Node { return rt.List(I(1)) })
 	add(func() *rt.Node { return rt.Map(S("a"), I(1)) })
+	// collections holding a float that is not finite (a field of point 4, an overflowing product) - they have no JSON text
+	add(func() *rt.Node { return rt.List(I(1), Id("ff")) })
+	add(func() *rt.Node { return rt.Map(S("a"), rt.List(rt.Bin("*", rt.Float(1e308), rt.Float(10)))) })
 	add(func() *rt.Node { return rt.Index("l", I(0)) })
 	add(func() *rt.Node { return rt.NoObjIndex(I(0)) })
 	add(func() *rt.Node { return rt.Call("len", Id("s")) })
